@@ -32,6 +32,7 @@ type c09X struct {
 	Markers       []int
 	PreGreetAuth  int  // step index of an AUTH sent before the greeting (-1 none)
 	Helo          bool // a greeting was HELO instead of EHLO
+	Regreet       bool // the client greeted again between two attempts
 	FailedUpgrade bool // a STARTTLS whose handshake failed precedes the attempts: still plaintext
 	// client half
 	CliPlan  *ClientSaslPlan
@@ -250,6 +251,12 @@ func genC09(t *Tape, tier string) *Scenario {
 		}
 		x.Markers = append(x.Markers, len(steps))
 		steps = append(steps, Step{Kind: kMarker, Data: []byte("NOOP\r\n"), Wait: 1})
+		if t.Chance(1, 3) {
+			// the client greets again: that ends a transaction, not the session - whoever
+			// has authenticated stays authenticated
+			x.Regreet = true
+			ehlo()
+		}
 		if x.TLSMode == tlsStart && !tlsActive && !x.FailedUpgrade && t.Chance(1, 2) {
 			steps = append(steps, Step{Kind: kStartTLS, Data: []byte("STARTTLS\r\n"), Wait: 1})
 			tlsActive = true
@@ -651,6 +658,9 @@ func classifyC09(sc *Scenario, h *History, st *Stats) string {
 		}
 		if a.AuthedBefore {
 			st.Probes["attempt_after_success"]++
+			if x.Regreet {
+				st.Probes["attempt_after_success_and_a_new_greeting"]++
+			}
 		}
 	}
 	if h.Conns[0].HandshakeDone {
@@ -690,7 +700,7 @@ func init() {
 		Real:        []string{"smtp.Server.Serve/handleConn", "smtp.Conn handleAuth, handleGreet (capabilities), handleStartTLS", "smtp.Client.Auth, NewClientStartTLS", "crypto/tls (client and server)", "net/textproto"},
 		Stub:        []string{"net.Listener (SimListener)", "net.Conn (SimConn)", "Backend/AuthSession (SimBackend)", "sasl.Server and sasl.Client (scripted, recording)", "clock (synctest)", "SMTP client of the server half (raw driver)"},
 		Assumptions: []string{"a nil (as opposed to empty) response from a client mechanism's Next is an unspecified contract and is not generated", "the reply code of a failed/malformed/cancelled exchange is not judged, only that it is not positive and the connection is back in command mode"},
-		Required:    []string{"attempt_235", "attempt_badb64", "attempt_cancel", "attempt_fail", "attempt_unknown-mech", "attempt_not_permitted", "attempt_after_success", "auth_after_failed_starttls_handshake", "client_half", "client_mechanism_error", "empty_initial_response", "tls_handshake_completed", "client_answers_a_challenge_later_than_ReadTimeout", "client_answers_a_challenge_with_an_over-long_line", "client_auth_exchange_broken_off", "attempt_after_HELO"},
+		Required:    []string{"attempt_235", "attempt_badb64", "attempt_cancel", "attempt_fail", "attempt_unknown-mech", "attempt_not_permitted", "attempt_after_success", "auth_after_failed_starttls_handshake", "client_half", "client_mechanism_error", "empty_initial_response", "tls_handshake_completed", "client_answers_a_challenge_later_than_ReadTimeout", "client_answers_a_challenge_with_an_over-long_line", "client_auth_exchange_broken_off", "attempt_after_HELO", "attempt_after_success_and_a_new_greeting"},
 		QuickRuns:   40000, ThoroughRuns: 1000000,
 	})
 }
